@@ -576,4 +576,88 @@ Proof.
   destruct (Hn (length rows - 1) ltac:(lia)) as (_ & _ & _ & _ & ->). auto.
 Qed.
 
+(* per-epoch list: every epoch keeps its rows (indices, features, payload), only labels change *)
+Theorem axis_none_list_rows flat n_rows row_len opts out k d :
+  group2d_axis_none flat n_rows row_len (Some opts) = Ok out ->
+  length opts = n_epochs (Z.of_nat n_rows * row_len) row_len -> k < length out ->
+  let ep := nth k (epoch_df flat (Z.of_nat n_rows * row_len) row_len) [] in
+  length (nth k out []) = length ep /\
+  forall i, i < length ep ->
+    p_s (nth i (nth k out []) d) = p_s (nth i ep d) /\
+    p_feat (nth i (nth k out []) d) = p_feat (nth i ep d) /\
+    p_bf (nth i (nth k out []) d) = p_bf (nth i ep d) /\
+    p_x (nth i (nth k out []) d) = p_x (nth i ep d).
+Proof.
+  intros H Hlen Hk ep. destruct (axis_none_list _ _ _ _ _ H Hlen) as [_ Hn].
+  specialize (Hn k Hk). fold ep in Hn.
+  destruct (relabel_spec _ _ _ d Hn) as (lab & _ & _ & HL & Hrows).
+  split; [exact HL|]. intros i Hi. destruct (Hrows i Hi) as (H1 & H2 & H3 & H4 & _). auto.
+Qed.
+
 End EpochProofs.
+
+(* ------------------------------------------------------------------------------------------ *)
+(** * E8 (Legacy): re-labelling epoch 0 on its own under a single option set *)
+
+Definition ex_row (c : Z) (lab : bool) (id : nat) : @prow nat :=
+  {| p_s := Build_srow (c - 3) (c - 6) c (c - 5) (c - 2) (c - 7);
+     p_feat := Build_feat4 1 1 1 1; p_bf := 1%float; p_lab := lab; p_x := id |}.
+
+(* three cycles labelled true by the flattened analysis; epoch 0 = (0, 10] holds the first two *)
+Definition legacy_flat : list (@prow nat) := [ex_row 5 true 0; ex_row 10 true 1; ex_row 15 true 2].
+Definition legacy_opt : relabel_opt := RCycles (Build_thr4 0 0.5 0.5 0.5) 0.
+
+Theorem axis_none_legacy_refuted :
+  group2d_axis_none_legacy legacy_flat 2 10 legacy_opt <> group2d_axis_none legacy_flat 2 10 None.
+Proof. vm_compute. intros H. discriminate H. Qed.
+
+(* the difference is in the label column of epoch 0: its first and last rows are forced to false *)
+Example axis_none_legacy_labels :
+  rmap (map (map p_lab)) (group2d_axis_none_legacy legacy_flat 2 10 legacy_opt) = Ok [[false; false]; [true]] /\
+  rmap (map (map p_lab)) (group2d_axis_none legacy_flat 2 10 None) = Ok [[true; true]; [true]].
+Proof. split; vm_compute; reflexivity. Qed.
+
+(* ------------------------------------------------------------------------------------------ *)
+(** * E9: non-vacuity *)
+
+Definition ex_rows : list (@prow nat) :=
+  [ex_row 8 false 0; ex_row 20 true 1; ex_row 25 true 2; ex_row 41 false 3; ex_row 60 true 4].
+
+(* (local closing index, label, original row number): closing index 20 stays in epoch 0 (local
+   index 20 = L), 41 falls in epoch 2 (local index 1), 60 closes epoch 2 *)
+Example epoch_df_example :
+  n_epochs 60 20 = 3 /\
+  map (map (fun r => (s_next (p_s r), p_lab r, p_x r))) (epoch_df ex_rows 60 20)
+  = [[(8%Z, false, 0); (20%Z, true, 1)]; [(5%Z, true, 2)]; [(1%Z, false, 3); (20%Z, true, 4)]].
+Proof. split; vm_compute; reflexivity. Qed.
+
+Example epoch_df_example_full :
+  epoch_df ex_rows 60 20
+  = [[ex_row 8 false 0; ex_row 20 true 1]; [ex_row 5 true 2]; [ex_row 1 false 3; ex_row 20 true 4]].
+Proof. vm_compute. reflexivity. Qed.
+
+(* sig_len need not be a multiple of L: ceil(50 / 20) = 3 epochs as well *)
+Example n_epochs_example : n_epochs 50 20 = 3 /\ n_epochs 40 20 = 2 /\ n_epochs 41 20 = 3.
+Proof. repeat split. Qed.
+
+Example ex_rows_sorted : StronglySorted lt_close ex_rows.
+Proof. unfold ex_rows. repeat constructor. Qed.
+
+Example ex_rows_range :
+  forall r, In r ex_rows -> (0 < s_next (p_s r) <= Z.of_nat (n_epochs 60 20) * 20)%Z.
+Proof.
+  intros r Hr. unfold ex_rows in Hr. cbn [In] in Hr.
+  repeat (destruct Hr as [<-|Hr]; [vm_compute; split; [reflexivity|discriminate]|]).
+  destruct Hr.
+Qed.
+
+Example epoch_df_example_partition : unshift_all 20 (epoch_df ex_rows 60 20) = ex_rows.
+Proof. apply epoch_df_partition; [reflexivity|exact ex_rows_sorted|exact ex_rows_range]. Qed.
+
+(* per-epoch list on the same table: each epoch gets its own rule *)
+Example axis_none_list_example :
+  rmap (map (map p_lab))
+       (group2d_axis_none ex_rows 3 20
+          (Some [RAmp 0.5 1; RCycles (Build_thr4 0 0.5 0.5 0.5) 0; RAmp 0.5 3]))
+  = Ok [[true; true]; [false]; [false; false]].
+Proof. vm_compute. reflexivity. Qed.
